@@ -39,8 +39,11 @@ def run(chk):
     s0 = sign(chk, [(k0, t0)])[0]
     vals = [0x41] if chk.tier == "quick" else [0x41, 0x20, 0x0a]
     step = 1
+    sig0 = s0.index(b"-----BEGIN PGP SIGNATURE")
     for pos in range(0, len(s0), step):
-        for v in vals:
+        # inside the signature armor several substitutions per position: which packet byte is hit (version, type,
+        # public-key or hash algorithm id, length, MPI bits) decides how the library refuses the signature
+        for v in (vals if pos < sig0 else sorted(set(vals + [0x41, 0x2f, 0x66, 0x51, 0x2b, 0x39]))):
             if s0[pos] != v:
                 cases.append(("csread", [b"0", s0[:pos] + bytes([v]) + s0[pos + 1:]])); tags.append("substitute")
         cases.append(("csread", [b"0", s0[:pos] + s0[pos + 1:]])); tags.append("delete")
